@@ -69,7 +69,7 @@ def batch(prop, tier, sd):
         for i in range(25 if quick else 150):
             out.append(ds.tree_decl(rng, 't%04d' % i, n=rng.randint(4, 7)))
         for i in range(4 if quick else 24):
-            out.append(ds.wide_decl(rng, 'w%04d' % i, width=rng.randint(9, 13), sync_root=(i % 3 != 2)))
+            out.append(ds.wide_decl(rng, 'w%04d' % i, width=(rng.randint(11, 14) if i % 4 else rng.randint(8, 10)), sync_root=(i % 3 != 2)))
         if prop == 'C02':
             base = [d for d in out if d['id'].startswith('r')][: (10 if quick else 60)]
             for d in base:
@@ -98,8 +98,16 @@ def batch(prop, tier, sd):
         for i in range(40 if quick else 300):
             out.append(ds.sources_decl(rng, 's%04d' % i, p_fallible=rng.choice([0.0, 0.5, 0.8]), nsync=(0 if i % 4 == 1 else None)))
         # many input-free Async providers at once (the scheduler's queues and pool counts beyond small sizes)
-        for i in range(4 if quick else 24):
-            out.append(ds.wide_decl(rng, 'w%04d' % i, width=rng.randint(8, 12), sync_root=(i % 2 == 0), p_root=rng.choice([0.0, 0.15, 0.3])))
+        for i in range(14 if quick else 80):
+            out.append(ds.wide_decl(rng, 'w%04d' % i, width=rng.randint(8, 11), sync_root=(i % 2 == 0), p_root=rng.choice([0.0, 0.0, 0.15, 0.3]),
+                                    njoin=rng.choice([0, 2, 3, 4, 5]), nleaf=rng.choice([0, 1, 2, 3])))
+        # the same in declaration order: k sources, joins of consecutive pairs, synchronous leaves, one consumer of everything
+        for k, (wd, nj, nl) in enumerate([(8, 3, 2), (9, 2, 1), (10, 4, 2)] if quick else [(a_, b_, c_) for a_ in (8, 9, 10, 11) for b_ in (2, 3, 4) for c_ in (0, 1, 2)]):
+            d_ = ds.wide_decl(rng, 'o%04d' % k, width=wd, sync_root=True, p_root=0.0, njoin=nj, nleaf=nl, ordered=True)
+            for p_ in d_['providers'][1:wd + 1]:
+                p_['async'] = True
+                p_['requires'] = []
+            out.append(d_)
         # exhaustive: n<=3 (quick) / n<=4 (thorough) shapes in which >=2 sources are async and needed
         for nn in [3, 4]:
             for k, edges in enumerate(ds.all_dags(nn)):
@@ -120,7 +128,7 @@ def batch(prop, tier, sd):
         for i in range(18 if quick else 120):
             out.append(ds.sources_decl(rng, 's%04d' % i, p_fallible=0.6, nsync=(0 if i % 2 == 1 else None)))
         for i in range(2 if quick else 12):
-            out.append(ds.wide_decl(rng, 'w%04d' % i, width=rng.randint(9, 12), p_fallible=0.3, sync_root=(i % 2 == 0)))
+            out.append(ds.wide_decl(rng, 'w%04d' % i, width=rng.randint(10, 13), p_fallible=0.3, sync_root=(i % 2 == 0)))
         ex = ds.exhaustive_small(3, with_fallible=False)
         ex = [d for d in ex if any(p['async'] for p in d['providers'])]
         pick = rng.sample(ex, 24 if quick else len(ex))
